@@ -237,10 +237,24 @@ class SlowSock:
                 return min(n, self._rng.choice((1000, 1 << 16, n // 2 + 1)))
         return n
 
+    virtual_idle = 0.0
+
+    def _silence(self):
+        """virtual time: `virtual_idle` seconds pass without a byte from the peer before this read.  A socket that was
+        left with a timeout shorter than that reports it, exactly as the kernel would after waiting that long; a blocking
+        socket (or code that retries after a timeout) just goes on."""
+        idle, self.virtual_idle = self.virtual_idle, 0.0
+        if idle:
+            t = self._sock.gettimeout()
+            if t is not None and idle >= t:
+                raise TimeoutError("timed out")
+
     def recv(self, n):
+        self._silence()
         return self._sock.recv(self._shape(n))
 
     def recv_into(self, buf, nbytes=0):
+        self._silence()
         n = nbytes or len(buf)
         return self._sock.recv_into(buf, self._shape(n))
 
@@ -286,6 +300,23 @@ def run_config(spec):
         trs = run_programs_on(res, gw, seed, spec["n"], label, big)
         if not gw.hasreceiver():
             res.violation(f"gateway-lost:{label}", "")
+        if spec["transport"] == "socket":
+            # an idle gateway stays connected however long nothing is said (one hour of virtual silence on the socket)
+            for rnd in range(3):
+                gw._io.sock.virtual_idle = 3600.0
+                try:
+                    gw.remote_exec("channel.send(channel.receive() + 1)").send(rnd)
+                except OSError as e:
+                    res.violation(f"socket-gateway-ended-by-silence:{label}", f"round {rnd}: {e}")
+                    break
+                time.sleep(0.05)
+            try:
+                ok = gw.remote_exec("channel.send(41 + 1)").receive(15)
+            except BaseException as e:  # noqa
+                ok = f"{type(e).__name__}: {e}"
+            res.count("virtual_hours_of_silence_on_socket", 3)
+            if ok != 42 or not gw.hasreceiver():
+                res.violation(f"socket-gateway-ended-by-silence:{label}", f"after an hour without traffic: {ok}")
         # gateway.exit() while a remote task is still running: what it sends afterwards is still delivered, then EOF
         late = gw.remote_exec("import time\nsub = channel.gateway.newchannel()\nchannel.send(sub)\ntime.sleep(0.3)\n"
                               "for i in range(3):\n    sub.send(('late-sub', i))\nchannel.send('late-item')\nchannel.send('bye')\n")
